@@ -31,6 +31,8 @@ HEADER = ("From Coq Require Import List ZArith Bool.\nFrom Qryn Require Import m
 # ------------------------------------------------------------------------------ observations -> class codes
 def obs_code(o):
     """0 2xx, 1 4xx, 2 5xx, 3 crash, 4 leak, 5 hang, 6 abort (handler panic: net/http closes the connection)"""
+    if o["outcome"] == "skipped":
+        return 8
     if o["outcome"] == "crash":
         return 3
     if o["outcome"] == "hang":
@@ -49,7 +51,7 @@ def obs_code(o):
     return 7
 
 
-CODE_NAME = {0: "2xx", 1: "4xx", 2: "5xx", 3: "crash", 4: "leak", 5: "hang", 6: "abort", 7: "other-status", 9: "model-undecided"}
+CODE_NAME = {8: "skipped", 0: "2xx", 1: "4xx", 2: "5xx", 3: "crash", 4: "leak", 5: "hang", 6: "abort", 7: "other-status", 9: "model-undecided"}
 
 
 def coq_param(p):
@@ -149,6 +151,43 @@ def test_oracle(c):
     return None
 
 
+GENERATED_THEOREMS = ("reader_unrecovered_goroutines_accounted", "handler_loops_receive_until_close")
+
+
+def props_split(ck):
+    """props/C12.v does not compile (normally: one of the two obligations over the regenerated inventory fails).
+    Do not let that take the other theorems down: evaluate the inventory obligations on their own (naming the
+    offending sites) and re-check the remaining theorems from a copy of the file without those two."""
+    src = open(os.path.join(vcheck.COQ, "props", "C12.v")).read()
+    ck.obligations = [o for o in ck.obligations if not o[0].startswith("theorem ")]
+    ok_deps, _ = ck.coq_make(["proofs/ReadPathProofs.vo", "gen/GenGoroutinesReader.vo"])
+    txt = ("From Coq Require Import List String.\nFrom Qryn Require Import model.ReaderGoroutines gen.GenGoroutinesReader.\n"
+           "Eval vm_compute in (unaccounted reader_goroutines, stale reader_goroutines, map (recovers_at reader_goroutines) must_recover).\n"
+           "Eval vm_compute in (unaccounted_loops reader_loops).\n")
+    rc, out = ck.coq_eval("C12_inventory", txt)
+    flat = " ".join(out.split())
+    parts = re.findall(r"= (.*?) : (?:list|\()", " " + flat)
+    ck.obligation("theorem reader_unrecovered_goroutines_accounted", rc == 0 and "= (nil, nil, true :: true :: nil)" in flat,
+                  "(unaccounted goroutines, allow-listed sites that disappeared, must-recover sites recovering) " + (parts[0][:900] if parts else flat[:900]))
+    ck.obligation("theorem handler_loops_receive_until_close", rc == 0 and len(parts) > 1 and parts[1].strip() == "nil",
+                  "handler loops that can leave before their channel is closed and are not allow-listed: " + (parts[1][:900] if len(parts) > 1 else flat[-600:]))
+    rest = src
+    for t in GENERATED_THEOREMS:
+        rest = re.sub(r"Theorem %s\b.*?Print Assumptions %s\.\n" % (t, t), "", rest, flags=re.S)
+    thms = re.findall(r"^\s*(?:Theorem|Corollary)\s+([A-Za-z_][\w']*)", rest, re.M)
+    rc, out = ck.coq_eval("C12_props_rest", rest)
+    verdicts = vcheck.parse_assumptions(out)
+    allok = rc == 0 and len(verdicts) >= len(thms)
+    for i, t in enumerate(thms):
+        if allok:
+            kind, ax = verdicts[i]
+            ck.obligation("theorem " + t, kind == "closed" or not [a for a in ax if a.split(".")[-1] not in vcheck.ALLOWED_AXIOMS],
+                          "closed under the global context" if kind == "closed" else "axioms: " + ", ".join(ax))
+        else:
+            ck.obligation("theorem " + t, False, "does not compile even without the inventory obligations: " + out[-600:])
+    return False
+
+
 def run(ck):
     ck.trusted += [
         "C12: the PromQL engine, the participle parsers, fastjson/protobuf decoders and database/sql are exercised by the harness, not modelled",
@@ -167,13 +206,9 @@ def run(ck):
     # ---- 2. theorems (the first one is the inventory obligation over the regenerated file)
     props_ok = ck.coq_props()
     if not props_ok:
-        # say which goroutines are the problem
-        txt = ("From Coq Require Import List String.\nFrom Qryn Require Import model.ReaderGoroutines gen.GenGoroutinesReader.\n"
-               "Eval vm_compute in (unaccounted reader_goroutines, stale reader_goroutines, map (recovers_at reader_goroutines) must_recover).\n")
-        rc, out = ck.coq_eval("C12_inventory", txt)
-        flat = " ".join(out.split())
-        ck.obligation("goroutine inventory: every unrecovered goroutine under reader/ is allow-listed with its operations, no stale entry, stages recover",
-                      "= (nil, nil, true :: true :: nil)" in flat, flat[:1500])
+        props_ok = props_split(ck)
+    if not ck.quick() and props_ok:
+        ck.coqchk(["Qryn.props.C12"])
     # ---- 3. harness
     if not ck.go_build("readfuzz"):
         ck.obligation("harness readfuzz builds against %s" % vcheck.REPO, False, ck.build_out[-1500:])
@@ -201,10 +236,13 @@ def run(ck):
                 return
             cases += res
     n = ck.n(600, 12000)
-    res = run_harness(ck, ["--seed", ck.seed, "--n", n], "gen")
+    res = run_harness(ck, ["--seed", ck.seed, "--n", n, "--budget-s", ck.n(150, 3000)], "gen")
     if res is None:
         return
     cases += res
+    skipped = [c for c in cases if c["obs"]["outcome"] == "skipped"]
+    cases = [c for c in cases if c["obs"]["outcome"] != "skipped"]
+    ck.extra["skipped_for_time"] = len(skipped)
     modelled = [c for c in cases if c.get("model")]
     testonly = [c for c in cases if not c.get("model")]
     known = ck.known_findings()
@@ -269,6 +307,8 @@ def run(ck):
         c, why = min(bad, key=lambda t: size_of(t[0]))
         ck.violation({"property": "C12", "kind": why, "case": strip(c), "others": len(bad) - 1, "replay": "bin/check C12 --replay <this file>"})
 
+    ck.obligation("every generated request was evaluated within the time budget (requests are skipped only once hangs/leaks have been established)",
+                  not skipped or bool(ck.violations), "%d requests skipped" % len(skipped))
     # ---- 6. evidence
     hist, outc = {}, {}
     distinct = set()
